@@ -24,8 +24,10 @@ def run(res):
                         "samples": [{"labels": [0, 0, 2], "classes": 3, "wrapper": "Oversampling(exact)"}, {"labels": [1, 0, 1, 2, 2, 0, 1], "percent": 0.29}]})
     res.notes.append("proved: PercentFilterWrapper, SubsetWrapper (index and percent ranges), RepeatWrapper, ShuffleWrapper, ClassFilterWrapper constructors "
                      "against their promised index sequence, SortByClassWrapper (strict (class, position) order = stable sort, no duplicate, every "
-                     "labelled sample present), termination of OversamplingWrapper(exact); bounded only: "
-                     "intra-class shuffle, few-shot, class-wise subset, oversampling balance (multiset statements over numpy/torch code). "
+                     "labelled sample present), FewshotWrapper (valid labelled samples in non-decreasing class order, none twice - the amount per "
+                     "class stays bounded), OversamplingWrapper(multiply) keeps every sample as a prefix and appends only valid labelled samples, "
+                     "termination of OversamplingWrapper(exact); bounded only: "
+                     "intra-class shuffle, few-shot amounts, class-wise subset, oversampling balance (multiset statements over numpy/torch code). "
                      "int(p * n) is evaluated on reals (float rounding of the percent product is not modelled). Label domain: classes in "
                      "[0, C); -1 (unlabeled) only for OversamplingWrapper(multiply) and the range wrappers")
 
